@@ -270,7 +270,15 @@ class System:
 
     def reload_coordinator(self):
         self.write_cfg()
-        B.http('POST', 'http://' + self.web + '/-/reload', timeout=10)
+        for attempt in range(4):
+            try:
+                B.http('POST', 'http://' + self.web + '/-/reload', timeout=30)
+                return
+            except Exception as e:
+                # (a loaded machine: the answer can take its time; the reload of an unchanged file is harmless)
+                err = e
+                time.sleep(2)
+        raise C.Inconclusive('the coordinator did not answer the reload request: %s' % err)
 
     def tid_of(self, h):
         if h in self.byhash:
